@@ -647,6 +647,8 @@ class Sim:
                     optional = True
         except Stop:
             raise
+        # the container has reached its end with CIF_OK: cif_container_prune runs now, just before the end handler
+        cs["closed"] = True
         r2 = self.opt_end((en_tag, self.hcode(c[1])), optional)
         if r2 == SKIP_SIB:
             sib = True
@@ -683,6 +685,7 @@ class Sim:
             self.syntax(("dn", n))
         ls["open"] = True
         r = self.handler(("ls", tuple(e[1])))
+        ls["created"] = (r == CONT)                     # the loop exists in the container from now on
         sib = (r == SKIP_SIB)
         pbyp = (r != CONT)
         # STRICT (documented behaviour, notes/agents/gH.md): a loop bypassed from loop_start or from inside (packet_start /
@@ -757,8 +760,10 @@ def check_store(st, cif, stopped):
                 return "%s: stored loop %s is not in the document" % (where, sorted(names))
             l = cand[0]
             used.add(id(l))
-            if not pk and not stopped:       # after END / an error the prune step of the open containers is skipped (reading note)
-                return "%s: packet-less loop %s left in the CIF" % (where, sorted(names))
+            # packet-less loops are removed when their container ends (cif_container_prune, just before the end handler);
+            # after END / an error only the containers that were still OPEN at that point keep theirs
+            if not pk and (not stopped or cs.get("closed")):
+                return "%s: packet-less loop %s left in a container that was closed" % (where, sorted(names))
             rows = [dict(zip(l["names"], p)) for p, _ in l["pk"]]
             classes = [cl for _, cl in l["pk"]]
 
@@ -775,6 +780,9 @@ def check_store(st, cif, stopped):
         for l in cs["loops"]:
             if id(l) not in used and any(cl == MUST for _, cl in l["pk"]):
                 return "%s: loop %s should be stored" % (where, l["names"])
+            if id(l) not in used and stopped and not cs.get("closed") and l.get("created") and cs["exists"] == MUST:
+                return ("%s: loop %s was created and its container was still open when the parse was stopped: it should be "
+                        "stored (with the packets recorded so far, possibly none)") % (where, l["names"])
         # frames
         for code, fs in cs["frames"].items():
             r = exists(fs, c["frames"].get(code), where + "/save_" + code)
